@@ -171,6 +171,7 @@ func (s *Writer) introduceSegment(next *segmentIntroduction, introduceSnapshotEp
 
 	newSnapshot.updateSize()
 
+	verifHook("intro.batch", s, next.id)
 	s.replaceRoot(newSnapshot, next.persisted, next.persistedCallback)
 
 	close(next.applied)
@@ -231,6 +232,7 @@ func (s *Writer) introducePersist(persist *persistIntroduction, introduceSnapsho
 	atomic.StoreUint64(&s.stats.TotFileSegmentsAtRoot, fileSegments)
 	newIndexSnapshot.updateSize()
 
+	verifHook("intro.persist", s)
 	s.replaceRoot(newIndexSnapshot, nil, nil)
 
 	close(persist.applied)
@@ -328,6 +330,7 @@ func (s *Writer) introduceMerge(nextMerge *segmentMerge, introduceSnapshotEpoch 
 
 	newSnapshot.updateSize()
 
+	verifHook("intro.merge", s, nextMerge.id, skipped)
 	s.replaceRoot(newSnapshot, nil, nil)
 
 	// notify requester that we incorporated this
@@ -348,6 +351,7 @@ func (s *Writer) replaceRoot(newSnapshot *Snapshot, persistedCh chan error, pers
 	if s.root != nil {
 		atomic.StoreUint64(&s.stats.CurRootEpoch, s.root.epoch)
 	}
+	verifHook("root.replace", s, newSnapshot, rootPrev)
 	s.rootLock.Unlock()
 
 	if rootPrev != nil {
